@@ -73,6 +73,10 @@ func (msg *Message) DecodeMsg(dc *msgp.Reader) error {
 		return msgp.WrapError(err, "Array Header")
 	}
 
+	if sz != 3 && sz != 4 {
+		return msgp.ArrayError{Wanted: 4, Got: sz}
+	}
+
 	if msg.Tag, err = dc.ReadString(); err != nil {
 		return msgp.WrapError(err, "Tag")
 	}
@@ -112,6 +116,10 @@ func (msg *Message) UnmarshalMsg(bits []byte) ([]byte, error) {
 
 	if sz, bits, err = msgp.ReadArrayHeaderBytes(bits); err != nil {
 		return bits, msgp.WrapError(err, "Array Header")
+	}
+
+	if sz != 3 && sz != 4 {
+		return bits, msgp.ArrayError{Wanted: 4, Got: sz}
 	}
 
 	if msg.Tag, bits, err = msgp.ReadStringBytes(bits); err != nil {
@@ -205,6 +213,10 @@ func (msg *MessageExt) DecodeMsg(dc *msgp.Reader) error {
 		return msgp.WrapError(err, "Array Header")
 	}
 
+	if sz != 3 && sz != 4 {
+		return msgp.ArrayError{Wanted: 4, Got: sz}
+	}
+
 	if msg.Tag, err = dc.ReadString(); err != nil {
 		return msgp.WrapError(err, "Tag")
 	}
@@ -244,6 +256,10 @@ func (msg *MessageExt) UnmarshalMsg(bits []byte) ([]byte, error) {
 
 	if sz, bits, err = msgp.ReadArrayHeaderBytes(bits); err != nil {
 		return bits, msgp.WrapError(err, "Array Header")
+	}
+
+	if sz != 3 && sz != 4 {
+		return bits, msgp.ArrayError{Wanted: 4, Got: sz}
 	}
 
 	if msg.Tag, bits, err = msgp.ReadStringBytes(bits); err != nil {
